@@ -38,11 +38,12 @@ ASSUMPTIONS = ['sessions learn UIDs of new positions with FETCH n:m (UID '
                'FLAGS) after EXISTS, as clients do',
                'a session that had \\Recent assigned but logs out before its '
                'next command was simply never told (allowed: at most one)']
-BUDGET = {'quick': (150, 16), 'thorough': (4000, 16)}
+BUDGET = {'quick': (200, 16), 'thorough': (4000, 16)}
 
 OPS = ['select', 'select', 'select', 'examine', 'close', 'reconnect',
-       'select-other', 'examine-other', 'append', 'append', 'append',
-       'append-recent', 'copy-in', 'copy-in', 'store-recent', 'fetch', 'noop']
+       'select-other', 'examine-other', 'examine-other', 'append', 'append',
+       'append', 'append-recent', 'copy-in', 'copy-in', 'copy-in',
+       'store-recent', 'fetch', 'noop']
 
 
 def strategy(tier: str) -> Any:
